@@ -122,7 +122,8 @@ PreAt(s, e) ==
                    ELSE R(Force(s2, e), a.errs \cup {"Desync"})
       [] e.e = "lsc" ->     \* a local condition consulted outside the protocol is a stutter of the model: if it
                             \* stops the deme, the next snapshot shows a deme that stopped without a cause
-           IF e.d \in Ids(s) /\ EnLsc(s, e.d) THEN R(s, {}) ELSE R(s, {"Desync"})
+           IF e.d \in Ids(s) /\ EnLsc(s, e.d) THEN R(s, {})
+           ELSE LET a == Advance(s, e.b, e.d, {}) IN R(a.st, a.errs \cup {"Desync"})   \* local searches before it still ran
       [] e.e = "gsc" /\ e.by = "step" ->
            LET a == Advance(s, e.b, NoDeme, {}) IN
            IF EnPostGsc(a.st) THEN a ELSE R(Force(a.st, e), a.errs \cup {"Desync"})
